@@ -2,6 +2,7 @@
 from __future__ import annotations
 
 import ast
+import re
 
 from sa.core import AnalysisError, unparse, walk_no_nested, FuncInfo
 from sa.effects import MODULE_ROOTS
@@ -26,6 +27,8 @@ def check(repo, col, tier):
     col.rule("R-C18-closure", "no closure is stored on a module; stored partials wrap module-level functions", 15)
     col.rule("R-C18-getattr", "__getattr__ handles dunder names before touching self.base", 2)
     col.rule("R-C18-share", "no shared mutable state between instances", 6)
+    col.rule("R-C18-protocol", "a custom copy/pickle protocol method copies the whole state and shares nothing", 2)
+    _protocol(repo, col)
     _closures(repo, col)
     _getattr(repo, col)
     _share(repo, col)
@@ -92,13 +95,32 @@ def _closures(repo, col):
     for name in ("_radius_generating_fn", "_padded_radius_generating_fn"):
         fi = repo.func("jaxley/utils/cell_utils.py", name)
         ex = idx.expander(repo, fi)
-        r = ex.returns[-1] if ex.returns else None
-        ok = r is not None and r.op == "call" and r.name == "partial" and r.args and r.args[0].op == "free" and \
-            r.args[0].name in cu.functions
-        col.check(ok, R, fi, f"{name} returns functools.partial of a module-level function",
-                  f"partial({r.args[0].name if ok else '?'}, ...)",
-                  f"{name} returns {r.short(80) if r else None}: a lambda / nested function here makes every SWC cell unpicklable",
-                  node=fi.node)
+        # every return statement (every path), not only the last one
+        rets = [n for n in walk_no_nested(fi.node) if isinstance(n, ast.Return)]
+        if not rets:
+            raise AnalysisError(f"{name} has no return statement")
+
+        def _picklable(v):
+            if isinstance(v, ast.IfExp):
+                return _picklable(v.body) and _picklable(v.orelse)
+            if isinstance(v, ast.Name):
+                if v.id in cu.functions:
+                    return True
+                # a local name: every assignment to it in this function must be picklable
+                asg = [n.value for n in walk_no_nested(fi.node) if isinstance(n, ast.Assign) and
+                       any(isinstance(t, ast.Name) and t.id == v.id for t in n.targets)]
+                return bool(asg) and all(_picklable(a) for a in asg)
+            return isinstance(v, ast.Call) and unparse(v.func) in ("partial", "functools.partial") and v.args and \
+                isinstance(v.args[0], ast.Name) and v.args[0].id in cu.functions and \
+                not any(isinstance(x, (ast.Lambda,)) for a in list(v.args[1:]) + [k.value for k in v.keywords] for x in ast.walk(a))
+
+        for rn in rets:
+            ok = rn.value is not None and _picklable(rn.value)
+            col.check(ok, R, fi, f"{name}: `{unparse(rn)[:60]}` returns a module-level function or a functools.partial of one",
+                      "picklable by reference",
+                      f"{name} returns `{unparse(rn.value)[:80] if rn.value else None}` on one path: a lambda / nested function / other "
+                      f"object here makes SWC cells that take this path unpicklable (pickle.dumps raises)",
+                      node=rn)
     rs = repo.func("jaxley/io/swc.py", "read_swc")
     ex = idx.expander(repo, rs)
     st = [s for s in ex.stores if s.kind == "attr" and s.key.name == "_radius_generating_fns"]
@@ -117,6 +139,107 @@ def _closures(repo, col):
                             _has_closure(s.value) is None for s in apps)
     col.check(ok, R, rg, "_radius_generating_fns collects the results of _radius_generating_fn", "",
               "radius functions are not built by the picklable helper", node=rg.node)
+
+
+PROTOCOL = ("__deepcopy__", "__getstate__", "__setstate__", "__reduce__", "__reduce_ex__", "__getnewargs__", "__getnewargs_ex__")
+
+
+def protocol_findings(cls_node: ast.ClassDef):
+    """Findings (verdict, method node, construct, reason) for custom copy/pickle protocol methods of one class.
+    verdict: 'ok' | 'bad' | 'unk'.  The default protocol (no method) deep-copies / pickles the complete
+    instance dictionary, so the obligation only exists for classes that override it."""
+    out = []
+    for m in cls_node.body:
+        if not isinstance(m, ast.FunctionDef) or m.name not in PROTOCOL:
+            continue
+        args = [a.arg for a in m.args.args]
+        me = args[0] if args else "self"
+        src = unparse(m)
+        bad = []
+        for n in ast.walk(m):
+            # memo[id(X)] = X   (pre-seeding the memo: X is shared between original and copy)
+            if isinstance(n, ast.Assign) and len(n.targets) == 1 and isinstance(n.targets[0], ast.Subscript):
+                t = n.targets[0]
+                if isinstance(t.slice, ast.Call) and unparse(t.slice.func) == "id" and t.slice.args and \
+                        unparse(t.slice.args[0]) == unparse(n.value) and unparse(n.value) != me:
+                    bad.append((n, f"`{unparse(n)}` pre-seeds the deepcopy memo: `{unparse(n.value)}` is shared by reference between the "
+                                   f"original and every copy, editing it through the copy alters the original"))
+            # new.attr = self.attr  /  state[k] = self.k  without a copy
+            if isinstance(n, ast.Assign) and isinstance(n.value, ast.Attribute) and isinstance(n.value.value, ast.Name) and \
+                    n.value.value.id == me and n.value.attr not in ("__class__", "__dict__") and m.name == "__deepcopy__":
+                tgt = n.targets[0]
+                memo_seed = isinstance(tgt, ast.Subscript) and isinstance(tgt.slice, ast.Call) and unparse(tgt.slice.func) == "id"
+                if isinstance(tgt, (ast.Attribute, ast.Subscript)) and not memo_seed:
+                    bad.append((n, f"`{unparse(n)}` hands `{unparse(n.value)}` to the copy by reference (no deepcopy)"))
+            # dropping keys from the state
+            if isinstance(n, ast.Delete) and m.name in ("__getstate__", "__reduce__", "__reduce_ex__"):
+                bad.append((n, f"`{unparse(n)}` removes an attribute from the pickled state: the loaded module is not identical"))
+            if isinstance(n, ast.Call) and isinstance(n.func, ast.Attribute) and n.func.attr in ("pop", "popitem", "clear") and \
+                    m.name in ("__getstate__", "__reduce__", "__reduce_ex__", "__deepcopy__"):
+                bad.append((n, f"`{unparse(n)[:60]}` removes an attribute from the copied / pickled state"))
+        if bad:
+            for n, why in bad:
+                out.append(("bad", m, unparse(n)[:80], why))
+            continue
+        whole = f"{me}.__dict__" in src
+        if m.name == "__deepcopy__":
+            ok = whole and re.search(r"\bdeepcopy\(", src) is not None
+        elif m.name == "__setstate__":
+            ok = whole and ".update(" in src or f"{me}.__dict__ =" in src
+        elif m.name == "__getstate__":
+            ok = whole
+        else:
+            ok = False
+        out.append(("ok" if ok else "unk", m, m.name, "copies the complete instance dictionary" if ok else
+                    "custom protocol method whose completeness this analysis cannot establish"))
+    return out
+
+
+_POSITIVE = """
+class X:
+    def __deepcopy__(self, memo):
+        memo[id(self.externals)] = self.externals
+        new = self.__class__.__new__(self.__class__)
+        memo[id(self)] = new
+        new.__dict__.update(deepcopy(self.__dict__, memo))
+        return new
+class Y:
+    def __deepcopy__(self, memo):
+        new = self.__class__.__new__(self.__class__)
+        memo[id(self)] = new
+        new.__dict__.update(deepcopy(self.__dict__, memo))
+        return new
+    def __getstate__(self):
+        state = self.__dict__.copy()
+        del state['recordings']
+        return state
+"""
+
+
+def _protocol(repo, col):
+    R = "R-C18-protocol"
+    # positive examples that must match on every run (the expected count on the repository is zero)
+    ex = ast.parse(_POSITIVE)
+    fx = [f for c in ex.body for f in protocol_findings(c)]
+    got = sorted((c, m.name) for c, m, _, _ in fx)
+    if got != [("bad", "__deepcopy__"), ("bad", "__getstate__"), ("ok", "__deepcopy__")]:
+        raise AnalysisError(f"copy-protocol rule does not recognise its reference examples: {got}")
+    n = 0
+    for cname, ci in sorted(repo.classes.items()):
+        n += 1
+        fs = protocol_findings(ci.node)
+        if not fs:
+            col.ok(R, ci.file, f"{cname} keeps the default copy / pickle protocol", "complete instance dictionary is copied", func=cname, node=ci.node)
+        for verdict, m, construct, why in fs:
+            title = f"{cname}.{m.name} copies the whole state and shares nothing with the original"
+            if verdict == "ok":
+                col.ok(R, ci.file, title, why, func=f"{cname}.{m.name}", node=m)
+            elif verdict == "bad":
+                col.bad(R, ci.file, title + f" [{construct}]", why, func=f"{cname}.{m.name}", node=m)
+            else:
+                col.unk(R, ci.file, title, why, func=f"{cname}.{m.name}", node=m)
+    if n < 20:
+        raise AnalysisError(f"only {n} classes scanned for copy-protocol methods")
 
 
 def _getattr(repo, col):
